@@ -172,7 +172,13 @@ class proceed:
             kept = self.outer.handler_pairs if self.outer is not None else []
             if new or any(id(acc) in gone for _, acc in kept):
                 pairs = [p for p in kept if id(p[1]) not in gone] + new
-                self.outer = HandlerCollection(pairs) if pairs else None
+                if self.outer is not None and self.outer.inside:
+                    # The caller is itself the body of an instrumented call
+                    self.outer = HandlerCollection(
+                        pairs, self.outer.left, inside=True
+                    )
+                else:
+                    self.outer = HandlerCollection(pairs) if pairs else None
         HandlerCollection.current.set(self.outer)
         return curr
 
@@ -246,9 +252,11 @@ class BaseOverlay:
                 else:
                     left.append(handler)
             inside = curr is not None and curr.inside
+            # (the body of an instrumented call keeps a collection, even an
+            # empty one: it remembers that it is one, and what ended in it)
             HandlerCollection.current.set(
                 HandlerCollection(pairs, left, inside)
-                if pairs or (left and inside)
+                if pairs or inside
                 else None
             )
 
